@@ -715,5 +715,51 @@ def r12_12(ctx):
     return r
 
 
+def r12_13(ctx):
+    """'a channel opened in-band appears at the peer with the label, protocol ... it was created with': the DCEP OPEN
+    is an ordinary user message on the channel's stream and the sender fragments it when label + protocol do not
+    fit one chunk. The receiver therefore may hand a payload to the DCEP parser only when it is a complete message:
+    a chunk that is both B and E, or the buffer reassembled from B .. E. Parsing each fragment on its own rejects
+    the head ('too short') and ignores the tail: the channel never appears."""
+    r = RuleResult("R12.13", "K1", "the DCEP parser is fed complete messages only (single B+E chunk, or the reassembled B..E buffer)")
+    b = ctx.body(PDP)
+    r.scope.append(PDP)
+    calls = [(bi, t) for bi, t, p in b.calls() if p and p.endswith("SctpInner::handle_dcep")]
+    r.need("handle_dcep call sites in process_data_payload", len(calls), 1)
+    gB = core.guard_edges(b, _flag_edge(0x02, True))
+    gE = core.guard_edges(b, _flag_edge(0x01, True))
+
+    def complete_at(blk):
+        return bool(gB) and bool(gE) and core.k1(b, [blk], gB)[blk] is None and core.k1(b, [blk], gE)[blk] is None
+
+    for bi, t in calls:
+        v = b.term_operand(t["a"][2]) if len(t["a"]) > 2 else None
+        if v is None:
+            raise core.CheckerError("R12.13: handle_dcep call without a payload argument")
+        leaves = []
+        if v[0] == "field" and v[1][0] == "variant" and v[1][2] == "Some" and v[1][1][0] == "var" and len(v[1][1]) > 2:
+            l = v[1][1][2]
+            for d in b.defs().get(l, []):
+                dt = b._term_def(d, 0, (l,))
+                if dt[0] == "agg" and dt[2] == "None":
+                    continue
+                leaves.append((dt, d[1]))
+        else:
+            leaves.append((v, bi))
+        bad = []
+        for lf, blk in leaves:
+            reassembled = mir.has(lf, lambda x: x[0] == "field" and x[2] == "dcep_reassembly") and gE and core.k1(b, [blk], gE)[blk] is None
+            if reassembled or complete_at(blk):
+                continue
+            bad.append((lf, blk))
+        if not bad and leaves:
+            r.ok({"site": b.where(bi), "payload": "single B+E chunk or the reassembled buffer taken on E"})
+        else:
+            r.violate(PDP, "dcep:fragment", b.where(bi),
+                      "the DCEP parser is handed the payload of a single DATA chunk without the chunk being a complete message (B and E): "
+                      "a fragmented OPEN (long label / protocol) is rejected and the channel never appears at the peer")
+    return r
+
+
 def run(ctx):
-    return [r12_1(ctx), r12_2(ctx), r12_2b(ctx), r12_3(ctx), r12_4(ctx), r12_5(ctx), r12_6(ctx), r12_7(ctx), r12_8(ctx), r12_9(ctx), r12_10(ctx), r12_11(ctx), r12_12(ctx)]
+    return [r12_1(ctx), r12_2(ctx), r12_2b(ctx), r12_3(ctx), r12_4(ctx), r12_5(ctx), r12_6(ctx), r12_7(ctx), r12_8(ctx), r12_9(ctx), r12_10(ctx), r12_11(ctx), r12_12(ctx), r12_13(ctx)]
